@@ -1,7 +1,7 @@
 #!/bin/bash
 # runs every claimed check's quick (or thorough) tier sequentially; prints one line per check
 tier=${1:-quick}
-cd /verif
+cd "$(dirname "$0")/.."
 for p in C17 C11 C12 C15 C08 C10 C16 C09 C07 C05 C06 C01 C02 C03 C04 C13 C14 C18 C19; do
   out=$(./check $p $tier 2>&1); code=$?
   echo "$p exit=$code $(echo "$out" | grep -c '^VIOLATION') viol | $(echo "$out" | grep -v KNOWN | tail -1)"
